@@ -11,8 +11,9 @@ RULE = ("part 'graphs': generated GFA1/GFA2 documents (isolated segments, trees,
         "model-based mutation history (checked after every step). Oracle: union-find over the model's dovetails "
         "vs connected_components() (partition equality, every segment exactly once) and "
         "segment_connected_component(s) for every s (by name and by instance); n_dovetails / n_containments / "
-        "n_internals / n_dead_ends vs counts from the text. non-trivial = >= 2 components of which one has "
-        ">= 2 segments, and >= 1 containment or internal edge between two different components; distinct by hash")
+        "n_internals / n_dead_ends vs counts from the text. non-trivial (graphs) = >= 2 components of which one has "
+        ">= 2 segments, and >= 1 containment or internal edge between two different components; (histories) = a "
+        "removal or rename at a closed state with >= 2 components one of which has >= 2 segments; distinct by hash")
 ASSUMPTIONS = ["documents are valid (C01); history steps are legal (C02)",
                "while identifiers or path links are pending (forward references) only the partition property is checked, not equality with the model"]
 
@@ -94,7 +95,8 @@ def prop_history(case):
         except Exception as e:
             raise Violation("step", "legal step %d %r raised %s: %s\n%s" % (step, op, type(e).__name__, str(e)[:300], run.model.text()), "%s/%s" % (op[0], type(e).__name__))
         comps = check_topology(run.gfa, run.model, "after step %d %r: " % (step, op))
-        if op[0] in ("rm", "rm_i", "disc", "rename") and _nt(run.model, comps):
+        if op[0] in ("rm", "rm_i", "disc", "rename") and len(comps) >= 2 and any(len(c) >= 2 for c in comps) \
+                and run.model.is_closed():
             nt = True
     return {"nt": nt, "version": version}
 
